@@ -485,6 +485,7 @@ def mp3(ctx, R):
             if isinstance(n, ast.Assign) and any(dotted(t) == "self." + vfield for t in n.targets):
                 stores.append((m, n))
     ok_store = True
+    unknown_store = None
     n_data_stores = 0
     for m, n in stores:
         sy = Sym(prog, m, K)
@@ -504,13 +505,28 @@ def mp3(ctx, R):
                     if a is not None:
                         vals.append(a)
         for x in vals:
-            ks = {classify(conds, leaf)[0] for conds, leaf in all_leaves(x)}
-            if not ks or not ks <= {"scaled", "raw-because-no-scaling"}:
+            # what is stored may be wrapped in a private record built on the spot:  _CachedChunk(<chunk>, <offset>)  -> its arguments
+            if isinstance(x, tuple) and x and x[0] in ("new", "call") and len(x) >= 3 and isinstance(x[1], str) and x[1] in prog.classes and x[2]:
+                parts = list(x[2])
+            else:
+                parts = [x]
+            ks = set()
+            for part in parts:
+                ks |= {classify(conds, leaf)[0] for conds, leaf in all_leaves(part)}
+            if len(parts) > 1:
+                ks -= {"other"} if ks & {"scaled", "raw-because-no-scaling", "unscaled", "double"} else set()
+            if ks & {"unscaled", "double"}:
                 ok_store = False
+            elif not ks or not ks <= {"scaled", "raw-because-no-scaling"}:
+                unknown_store = (m, n, x)
         if not vals:
-            ok_store = False
-    R.check(ok_store and n_data_stores >= 1, "tdms.TdmsChannel._read_at_index::cache", ri.where(), "the cached chunk is the scaled chunk",
-            "integer indexing caches an unscaled chunk")
+            unknown_store = (m, n, val)
+    if ok_store and (unknown_store is not None or n_data_stores < 1):
+        R.unrecognised("tdms.TdmsChannel._read_at_index::cache", ri.where(), "what integer indexing stores in its chunk cache was not recognised as scaled or raw data%s" % (
+            " (`%s`)" % show(unknown_store[2])[:100] if unknown_store else ""))
+    else:
+        R.check(ok_store, "tdms.TdmsChannel._read_at_index::cache", ri.where(), "the cached chunk is the scaled chunk",
+                "integer indexing caches an unscaled chunk")
     rs = prog.func("tdms.TdmsChannel._read_slice")
     from .region import region as _region
     oks = []
